@@ -71,6 +71,8 @@ class Unit:
         return Quantity(1 / o, self)
 
     def __rtruediv__(self, o):
+        if isinstance(o, (int, float)) and not isinstance(o, bool) and o == 1:
+            return self ** -1          # astropy: 1 / unit is a unit
         return Quantity(o, self ** -1)
 
     def __pow__(self, p):
